@@ -3429,6 +3429,10 @@ class RoConstr:
             sup_model.st(item)
 
         self.support = sup_model.do_math(primal=False, obj=False)
+        top = getattr(self.dec_model, 'top', None)
+        if top is not None:
+            top.pupdate = True
+            top.dupdate = True
 
         return self
 
